@@ -148,9 +148,23 @@ def r4(ctx):
     open(os.path.join(wd, "Cargo.toml"), "w").write(toml)
     shutil.copy(os.path.join(ctx.repo, "Cargo.lock"), os.path.join(wd, "Cargo.lock"))
     env = factbase.base_env()
-    env["CARGO_TARGET_DIR"] = os.path.join(factbase.CACHE, "target-witness")
+    # Target directory: private to this run and deleted with it (a shared one grew by one set of artifacts - and one
+    # incremental cache - per analysed variant, 90 GB after a few thousand runs). The dependencies' artifacts are reused
+    # through a copy of a base directory that the first run on a tree leaves behind.
+    base = os.path.join(factbase.CACHE, "target-witness-base")
+    tgt = os.path.join(wd, "target")
+    if os.path.isdir(base):
+        subprocess.run(["cp", "-a", base, tgt], stdout=subprocess.DEVNULL, stderr=subprocess.DEVNULL)  # a real copy (140 MB): nothing a run writes can reach the base
+    env["CARGO_TARGET_DIR"] = tgt
+    env["CARGO_INCREMENTAL"] = "0"
     env["RUSTFLAGS"] = "-Awarnings"
     r = subprocess.run("cargo +nightly check --offline --message-format short", shell=True, cwd=wd, env=env, stdout=subprocess.PIPE, stderr=subprocess.STDOUT, text=True)
+    if r.returncode == 0 and not os.path.isdir(base):
+        try:
+            os.rename(tgt, base + ".tmp.%d" % os.getpid())
+            os.rename(base + ".tmp.%d" % os.getpid(), base)
+        except OSError:
+            shutil.rmtree(base + ".tmp.%d" % os.getpid(), ignore_errors=True)
     shutil.rmtree(wd, ignore_errors=True)
     ctx.count(16)
     if r.returncode != 0:
